@@ -701,7 +701,7 @@ impl Engine for C11M32Engine {
         let ok = o.stdout.lines().any(|l| l.trim() == "OK") && !o.stderr.contains("Undefined Behavior");
         if !ok {
             let detail = o.stdout.lines().find(|l| l.starts_with("BAD")).map(|l| l.to_string()).or_else(|| o.stderr.lines().find(|l| l.starts_with("error") || l.contains("panicked")).map(|l| l.to_string())).unwrap_or_else(|| format!("exit {:?}", o.code));
-            viol::report_sig(&["C11", "C05"], "P.m32-roundtrip", format!("m32:{}:{}", M32_SHAPES[shape], M32_PATHS[path]), format!("{}: {}", what, detail));
+            viol::report_sig(&["C11", "C05", "C04", "C12"], "P.m32-roundtrip", format!("m32:{}:{}", M32_SHAPES[shape], M32_PATHS[path]), format!("{}: {}", what, detail));
         }
         CaseReport { viols: viol::take(), nontrivial: shape >= 5 || shape == 1 || shape == 4, labels: vec!["32-bit"], trace: if trace { vec![format!("{} -> {}", what, if ok { "OK" } else { "FAILED" })] } else { vec![] } }
     }
